@@ -1,4 +1,5 @@
 mod c01;
+mod c05;
 mod common;
 mod refmodel;
 mod sweep;
@@ -67,6 +68,7 @@ fn main() {
     if let Some(path) = ctx.replay.clone() {
         let code = match ctx.id.as_str() {
             "C01" | "C02" | "C03" => c01::replay(&ctx, &path),
+            "C05" => c05::replay(&ctx, &path),
             _ => {
                 eprintln!("no replay for {}", ctx.id);
                 2
@@ -78,6 +80,7 @@ fn main() {
         "C01" => c01::run_c01(&ctx),
         "C02" => c01::run_c02(&ctx),
         "C03" => c01::run_c03(&ctx),
+        "C05" => c05::run(&ctx),
         _ => usage(),
     };
     let code = finish(&ctx, &rep, t0.elapsed().as_secs_f64());
